@@ -40,11 +40,11 @@ def plan(tier):
 
 def floors(tier):
     return {"distinct_nontrivial": 1000, "movement_evaluations": 200000, "geometry_candles": 5000, "pattern_verdicts": 3000,
-            "pattern_variants_seen": 15, "invariance_checks": 20000}
+            "pattern_variants_seen": 15, "invariance_checks": 20000, "merged_geometry_reads": 2000}
 
 
 def gen_case(rng, tier, idx):
-    kind = rng.choice(["movement", "movement", "pattern", "pattern", "geometry"])
+    kind = rng.choice(["movement", "movement", "movement", "pattern", "pattern", "pattern", "geometry", "geometry_merged"])
     if kind == "movement":
         n = rng.randint(2, 40)
         level = rng.choice([0, 10, 100])
@@ -63,6 +63,11 @@ def gen_case(rng, tier, idx):
             l = round(min(o, c) - rng.choice([0, rng.uniform(0, 2)]), 2)
             cs.append((o, h, max(l, 0.01), c))
         return {"kind": kind, "candles": [(o, h, min(l, o, c), c) for o, h, l, c in cs]}
+    if kind == "geometry_merged":
+        from hxv.gen import streams
+        n = rng.randint(20, 70)
+        return {"kind": kind, "rows": streams.make_rows(rng, n, rng.choice(["walk", "spiky", "flat_runs"]), 60), "tf": rng.choice(["T2", "T3", "T5", "T15"]),
+                "peek": rng.random() < 0.8}
     pat = rng.choice(list(P.VARIANTS))
     var = rng.choice(P.VARIANTS[pat]) if rng.random() < 0.7 else "witness"
     made = None
@@ -147,6 +152,28 @@ def run_geometry(case, stats, V):
     return True
 
 
+def run_geometry_merged(case, stats, V):
+    """geometry of candles that are collapsed buckets, read between the appends that keep merging into them"""
+    from hxv.core import rows_to_candles
+    from hexital.indicators import HighLowAverage
+    rows = case["rows"]
+    ind = HighLowAverage(candles=rows_to_candles(rows[:1]), timeframe=case["tf"])
+    for r in rows_to_candles(rows[1:]):
+        ind.append(r)
+        for cd in (ind.candles if case["peek"] else ind.candles[-1:]):
+            d = vars(cd)
+            o, h, l, c = d["open"], d["high"], d["low"], d["close"]
+            stats["geometry_candles"] = stats.get("geometry_candles", 0) + 1
+            stats["merged_geometry_reads"] = stats.get("merged_geometry_reads", 0) + 1
+            want = {"realbody": abs(o - c), "shadow_upper": h - max(o, c), "shadow_lower": min(o, c) - l, "high_low": h - l, "positive": c > o, "negative": c < o}
+            for k, w in want.items():
+                g = getattr(cd, k)
+                if not same(g, w) and not (isinstance(w, float) and abs(g - w) <= 1e-12 * max(1.0, abs(w))):
+                    V("geometry-formula", f"C17|geometry-after-merge|{k}", f"bucket {d['timestamp']} ({o},{h},{l},{c}).{k} = {g!r}, formula gives {w!r} (after merges, geometry read between appends)")
+                    return True
+    return True
+
+
 def run_pattern(case, stats, V):
     pat, var, expect = case["pattern"], case["variant"], case["expect"]
     f = PATTERN_MAP[pat]
@@ -185,7 +212,7 @@ def run_case(case):
     if case["kind"] == "skipped":
         return {"violations": [], "nontrivial": False, "stats": {"pattern_constructions_dropped_by_validator": 1}}
     try:
-        nontrivial = {"movement": run_movement, "geometry": run_geometry, "pattern": run_pattern}[case["kind"]](case, stats, V)
+        nontrivial = {"movement": run_movement, "geometry": run_geometry, "pattern": run_pattern, "geometry_merged": run_geometry_merged}[case["kind"]](case, stats, V)
     except Exception as e:
         import traceback
         V("exception", f"C17|raises|{case['kind']}|{type(e).__name__}", (repr(e) + traceback.format_exc()[-500:])[:900])
